@@ -24,8 +24,16 @@ def key(desc) -> str:
     return json.dumps(desc, separators=(",", ":"))
 
 
+NAME_OVERRIDES: dict = {}  # key(desc) -> (short name, (major, minor)); consulted by build() only (API-built types)
+
+
 def type_name(desc) -> str:
     return "X" + hashlib.blake2b(key(desc).encode(), digest_size=5).hexdigest()
+
+
+def _name_version(desc):
+    ov = NAME_OVERRIDES.get(key(desc))
+    return ov if ov is not None else (type_name(desc), (1, 0))
 
 
 def is_composite(desc) -> bool:
@@ -93,14 +101,14 @@ def build(desc, cache: dict | None = None) -> pydsdl.SerializableType:
             else:
                 attrs.append(pydsdl.Field(ft, field_name(i)))
         cls = pydsdl.StructureType if k == "struct" else pydsdl.UnionType
-        name = type_name(desc)
+        name, ver = _name_version(desc)
         out = cls(
             name="vns." + name,
-            version=pydsdl.Version(1, 0),
+            version=pydsdl.Version(*ver),
             attributes=attrs,
             deprecated=False,
             fixed_port_id=None,
-            source_file_path=NS_DIR / (name + ".1.0.dsdl"),
+            source_file_path=NS_DIR / ("%s.%d.%d.dsdl" % (name, ver[0], ver[1])),
             has_parent_service=False,
         )
     elif k == "delim":
@@ -111,14 +119,14 @@ def build(desc, cache: dict | None = None) -> pydsdl.SerializableType:
             ft = build(f, cache)
             attrs.append(pydsdl.PaddingField(ft) if f[0] == "void" else pydsdl.Field(ft, field_name(i)))
         cls = pydsdl.StructureType if inner_desc[0] == "struct" else pydsdl.UnionType
-        name = type_name(desc)
+        name, ver = _name_version(desc)
         inner = cls(
             name="vns." + name,
-            version=pydsdl.Version(1, 0),
+            version=pydsdl.Version(*ver),
             attributes=attrs,
             deprecated=False,
             fixed_port_id=None,
-            source_file_path=NS_DIR / (name + ".1.0.dsdl"),
+            source_file_path=NS_DIR / ("%s.%d.%d.dsdl" % (name, ver[0], ver[1])),
             has_parent_service=False,
         )
         out = pydsdl.DelimitedType(inner, desc[2])
